@@ -437,7 +437,7 @@ func keys(m map[uint64]bool) []uint64 {
 
 func Run(r *evid.Run) {
 	r.Check = "c14"
-	r.Rule("(i) races: initial catalogue {empty, table a exists} x per-manager programs of 1-2 operations from {create a, create b, delete a, allocate a restore id} for 2 managers (all program pairs) and 3 managers (1 operation each; thorough: two of them up to 2), real Manager.createTable/DeleteTable/incAndGetIDSeq over real kv.LFSM replicas sharing one log, scheduling points at every store call; every scenario is explored twice - all managers on one replica (no lag), and each manager on its own replica whose lag at every stale read is a data choice; ALL interleavings. Oracle on the committed log: no creation while the name exists, results agree with the log, ids distinct, above earlier ids and increasing across non-overlapping calls, final catalogue = model, distinct ids per table; without lag additionally: a refusal/success must be justified by the table's presence/absence at some moment of the call. (ii) every sequence of length <= 3 (thorough 4) over {create a/b, delete a/b, put into a/b, restore a from a two-pair stream, the same restore with a reconcile pass landing at its first read (at most one restore per sequence), reconcile} on a real engine: create succeeds iff absent, delete iff present, ids grow, listing and lookup reflect exactly the live set, a created / recreated / restored table holds exactly the model content (a recreated one is empty), operations on one table never change the other, after a final reconcile running shards = catalogued shards. (iii) diffTables: every catalogue of <= 3 tables with ClusterID/RecoverID from {0,10001..10003} x every subset of running shards {1000,2000,10001..10004}: start = catalogued ids above the reserved range not running, stop = running ids above it not catalogued. Non-trivial: something was created/deleted resp. the diff is non-empty; distinct = distinct outcomes")
+	r.Rule("(i) races: initial catalogue {empty, table a exists} x per-manager programs of 1-2 operations from {create a, create b, delete a, allocate a restore id} for 2 managers (all program pairs) and 3 managers (1 operation each; thorough: two of them up to 2), real Manager.createTable/DeleteTable/incAndGetIDSeq over real kv.LFSM replicas sharing one log, scheduling points at every store call; every scenario is explored twice - all managers on one replica (no lag), and each manager on its own replica whose lag at every stale read is a data choice; ALL interleavings. Oracle on the committed log: no creation while the name exists, results agree with the log, ids distinct, above earlier ids and increasing across non-overlapping calls, final catalogue = model, distinct ids per table; without lag additionally: a refusal/success must be justified by the table's presence/absence at some moment of the call. (ii) every sequence of length <= 3 (thorough 4) over {create a/b, delete a/b, put into a/b, restore a from a two-pair stream, the same restore with a reconcile pass landing at its first read (at most one restore per sequence), reconcile} on a real engine: create succeeds iff absent, delete iff present, ids grow, listing and lookup reflect exactly the live set, a created / recreated / restored table holds exactly the model content (a recreated one is empty), operations on one table never change the other, after a final reconcile running shards = catalogued shards; plus delete/create/delete and create/create/delete/delete of 10 odd names (path separators, names of internal records, empty, non-ASCII), each step followed by the creation of a fresh table whose id must exceed every earlier id. (iii) diffTables: every catalogue of <= 3 tables with ClusterID/RecoverID from {0,10001..10003} x every subset of running shards {1000,2000,10001..10004}: start = catalogued ids above the reserved range not running, stop = running ids above it not catalogued. Non-trivial: something was created/deleted resp. the diff is non-empty; distinct = distinct outcomes")
 	var cases []Case
 	p2, p1 := programs(2), programs(1)
 	for _, ini := range []string{"empty", "a-exists"} {
@@ -809,10 +809,103 @@ func runEngineSequences(r *evid.Run) {
 	})
 	r.Extra("engine_sequences", done.Load())
 	r.Extra("engine_seconds", int(time.Since(t0).Seconds()))
+	runOddNames(r, engs[0])
 	// after a final reconcile the running table shards are exactly the catalogued ones
 	for _, eng := range engs {
 		finalReconcile(r, eng)
 	}
+}
+
+// runOddNames: names that could address internal records of the catalogue's key space. Whatever the
+// manager decides about such a name, the catalogue must stay a catalogue: create succeeds only for
+// a name that is then listed and found, delete succeeds only for a table that exists, and a table
+// created afterwards still gets an id above every id handed out before.
+func runOddNames(r *evid.Run, eng *engx.Engine) {
+	odd := []string{"sys/idseq", "sys", "sys/", "a/b", "x/lease", "/", "", "..", "a b", "ü"}
+	var maxID uint64
+	fresh := 0
+	listed := func() map[string]uint64 {
+		m := map[string]uint64{}
+		ts, err := eng.GetTables()
+		if err != nil {
+			return nil
+		}
+		for _, t := range ts {
+			m[t.Name] = t.ClusterID
+		}
+		return m
+	}
+	probe := func(after string) bool {
+		fresh++
+		name := fmt.Sprintf("oddprobe%d", fresh)
+		tb, err := eng.CreateTable(name)
+		if err != nil {
+			r.Violate("engine/odd-names/create-fails-afterwards", fmt.Sprintf("after %s: create(%s): %v", after, name, err), map[string]any{"kind": "odd-names", "after": after})
+			return false
+		}
+		if tb.ClusterID <= maxID {
+			r.Violate("engine/odd-names/id-not-above-earlier-ids", fmt.Sprintf("after %s: create(%s) got id %d, an earlier table had %d", after, name, tb.ClusterID, maxID), map[string]any{"kind": "odd-names", "after": after})
+		}
+		maxID = max(maxID, tb.ClusterID)
+		if l := listed(); l != nil && l[name] != tb.ClusterID {
+			r.Violate("engine/odd-names/created-table-not-listed", fmt.Sprintf("after %s: %s", after, name), map[string]any{"kind": "odd-names", "after": after})
+		}
+		_ = eng.WaitTable(name, 20*time.Second)
+		_ = eng.DeleteTable(name)
+		return true
+	}
+	if !probe("start") {
+		return
+	}
+	for _, name := range odd {
+		for _, order := range []string{"delete-first", "create-first"} {
+			before := listed()
+			step := func(op string) {
+				what := fmt.Sprintf("%s(%q)", op, name)
+				switch op {
+				case "create":
+					tb, err := eng.CreateTable(name)
+					after := listed()
+					if err == nil {
+						if after != nil && after[name] != tb.ClusterID {
+							r.Violate("engine/odd-names/create-succeeds-but-table-not-listed", what, map[string]any{"kind": "odd-names", "name": name})
+						}
+						if _, gerr := eng.GetTable(name); gerr != nil {
+							r.Violate("engine/odd-names/create-succeeds-but-table-not-found", what+": "+gerr.Error(), map[string]any{"kind": "odd-names", "name": name})
+						}
+						if tb.ClusterID <= maxID {
+							r.Violate("engine/odd-names/id-not-above-earlier-ids", fmt.Sprintf("%s got id %d, an earlier table had %d", what, tb.ClusterID, maxID), map[string]any{"kind": "odd-names", "name": name})
+						}
+						maxID = max(maxID, tb.ClusterID)
+					} else if after != nil && before != nil && !reflect.DeepEqual(after, before) {
+						r.Violate("engine/odd-names/refused-create-changed-the-listing", fmt.Sprintf("%s: %v -> %v", what, before, after), map[string]any{"kind": "odd-names", "name": name})
+					}
+					before = after
+				case "delete":
+					_, existed := before[name]
+					err := eng.DeleteTable(name)
+					if (err == nil) != existed {
+						r.Violate("engine/odd-names/delete-result-differs-from-existence", fmt.Sprintf("%s: listed before=%v err=%v", what, existed, err), map[string]any{"kind": "odd-names", "name": name})
+					}
+					before = listed()
+				}
+				r.Outcome("odd"+what+order, true)
+				probe(what)
+				before = listed()
+			}
+			if order == "delete-first" {
+				step("delete")
+				step("create")
+				step("delete")
+			} else {
+				step("create")
+				step("create")
+				step("delete")
+				step("delete")
+			}
+		}
+	}
+	r.Extra("odd_names", len(odd))
 }
 
 func finalReconcile(r *evid.Run, eng *engx.Engine) {
